@@ -365,8 +365,59 @@ static void ini_histories(IniCase& c, int K, bool allWritePositions) {
 	}
 }
 
+#ifdef C18_DEEP
+static const char* PART = "c18_deep";
+#define OTHER_PART_W "not_in_this_part." // witnesses of branches only the ASan part c18_inicsv exercises (20-set macros, shape macros)
+#else
+static const char* PART = "c18_inicsv";
+#define OTHER_PART_W "w."
+#endif
+
+struct Plan { int nlmin, nl, k; bool allw; };
+// every text of nlmin..nl lines x {LF, CRLF} x {final newline, none}; every history of <= k sets; written by the destructor
+// and by write() after the last set (allw: after every prefix of the history)
+static void ini_plan(const Plan& pl) {
+	uint64_t ntexts = 0, pw = 1;
+	std::vector<uint64_t> start; // first index of each length
+	for (int l = 0; l <= pl.nl; l++) { start.push_back(ntexts); if (l >= pl.nlmin) ntexts += pw; pw *= NLINES; }
+	start.push_back(ntexts);
+	if (vf::deadline_passed()) { vf::cap_hit(fmt("deadline before INI plan lines<=%d sets<=%d", pl.nl, pl.k)); return; }
+	double t0 = vf::now_s();
+	vf::parallel(ntexts * 4, [&](uint64_t it) {
+		if (vf::deadline_passed()) { static bool said = false; if (!said) { said = true; vf::cap_hit("deadline inside INI enumeration"); } return; }
+		uint64_t ti = it / 4; int var = (int)(it % 4);
+		int len = 0; while (start[len + 1] <= ti) len++;
+		uint64_t x = ti - start[len];
+		IniCase c; c.crlf = (var & 1) != 0; c.finalnl = (var & 2) == 0;
+		if (len == 0 && !c.finalnl) return;               // "" once: with 0 lines the final-newline variants coincide
+		if (len <= 1 && c.crlf && !c.finalnl) return;      // a single unterminated line has no line ending to vary
+		for (int j = 0; j < len; j++) { c.lines.push_back((int)(x % NLINES)); x /= NLINES; }
+		ini_histories(c, pl.k, pl.allw);
+	}, 8);
+	vf::setinfo(fmt("wall_s.ini_lines%d-%d_sets%d%s", pl.nlmin, pl.nl, pl.k, pl.allw ? "_allw" : ""), fmt("%.1f", vf::now_s() - t0));
+}
+
+// every table of R x C cells over the alphabet, written cell-wise and as arrays
+static void csv_shape(int R, int C) {
+	int n = R * C;
+	uint64_t total = 1; for (int i = 0; i < n; i++) total *= NCELLS;
+	const uint64_t CH = 169;
+	if (vf::deadline_passed()) { vf::cap_hit(fmt("deadline before CSV shape %dx%d", R, C)); return; }
+	double t0 = vf::now_s();
+	vf::parallel((total + CH - 1) / CH, [&](uint64_t blk) {
+		if (vf::deadline_passed()) { static bool said = false; if (!said) { said = true; vf::cap_hit("deadline inside CSV enumeration"); } return; }
+		for (uint64_t i = blk * CH; i < (blk + 1) * CH && i < total; i++) {
+			std::string cells; uint64_t x = i;
+			for (int j = 0; j < n; j++) { cells += char('a' + x % NCELLS); x /= NCELLS; }
+			run_csv('C', R, C, cells);
+			run_csv('A', R, C, cells);
+		}
+	}, 4);
+	vf::setinfo(fmt("wall_s.csv_%dx%d", R, C), fmt("%.1f", vf::now_s() - t0));
+}
+
 int main(int argc, char** argv) {
-	vf::init(argc, argv, "C18", "c18_inicsv");
+	vf::init(argc, argv, "C18", PART);
 	C_EVAL = vf::counter("evaluations"); C_DISTINCT = vf::counter("distinct_nontrivial");
 	W_NOEOL = vf::counter("w.ini_text_without_final_newline"); W_NOEOL_ENTRY_LAST = vf::counter("w.ini_last_line_is_entry_without_newline"); W_CRLF = vf::counter("w.ini_crlf_text");
 	W_NEWSEC = vf::counter("w.ini_set_creates_section"); W_NEWKEY = vf::counter("w.ini_set_adds_key_to_existing_section"); W_CHANGED = vf::counter("w.ini_set_changes_existing_value");
@@ -374,41 +425,33 @@ int main(int argc, char** argv) {
 	W_REWRITTEN = vf::counter("w.ini_file_rewritten"); W_NOTREWRITTEN = vf::counter("w.ini_file_left_alone"); W_UNTOUCHED = vf::counter("w.ini_untouched_values_checked");
 	W_COMMENTS = vf::counter("w.ini_comment_lines_checked"); W_SETCHECKS = vf::counter("w.ini_set_values_checked"); W_DUPSEC = vf::counter("w.ini_repeated_section_header");
 	W_EXPLICIT = vf::counter("w.ini_explicit_write"); W_MIDWRITE = vf::counter("w.ini_write_then_more_sets"); W_TOPKEYS = vf::counter("w.ini_entries_before_first_header");
-	W_LONGHIST = vf::counter("w.ini_histories_longer_than_3"); W_INDENTED = vf::counter("w.ini_indented_entry");
+	W_LONGHIST = vf::counter(OTHER_PART_W "ini_histories_longer_than_3"); W_INDENTED = vf::counter("w.ini_indented_entry");
 	W_CSV_QUOTED = vf::counter("w.csv_cells_needing_quotes"); W_CSV_NUM = vf::counter("w.csv_number_cells"); W_CSV_EMPTY = vf::counter("w.csv_empty_cells");
-	W_CSV_ARRAY = vf::counter("w.csv_tables_written_as_arrays"); W_CSV_CELLWISE = vf::counter("w.csv_tables_written_cellwise"); W_CSV_BIG = vf::counter("w.csv_shape_macros");
-	W_CSV_CELLS = vf::counter("w.csv_cells_compared"); W_CSV_SEMI = vf::counter("w.csv_semicolon_cells"); W_CSV_BYNAME = vf::counter("w.csv_cells_read_by_column_name");
+	W_CSV_ARRAY = vf::counter("w.csv_tables_written_as_arrays"); W_CSV_CELLWISE = vf::counter("w.csv_tables_written_cellwise"); W_CSV_BIG = vf::counter(OTHER_PART_W "csv_shape_macros");
+	W_CSV_CELLS = vf::counter("w.csv_cells_compared"); W_CSV_SEMI = vf::counter("w.csv_semicolon_cells"); W_CSV_BYNAME = vf::counter(OTHER_PART_W "csv_cells_read_by_column_name");
 	if (vf::opt.replay) { vf::parallel(1, [&](uint64_t) { run_case(vf::opt.kase); }); return vf::finish(); }
 	bool T = vf::opt.thorough();
 
-	// ---------------- INI (a): all texts of <= NL lines x eol x final newline, all histories of <= K sets
-	//   quick: NL=4, K=2, written by destructor / write() at the end
-	//   thorough: NL=5 with K=2; NL=4 with K=3 and write() at every position of the history
-	struct Plan { int nl, k; bool allw; };
-	std::vector<Plan> plans;
-	if (!T) { Plan p = { 4, 2, false }; plans.push_back(p); }
-	else { Plan p = { 5, 2, false }, q = { 4, 3, true }; plans.push_back(p); plans.push_back(q); }
-	for (size_t pi = 0; pi < plans.size(); pi++) {
-		Plan pl = plans[pi];
-		uint64_t ntexts = 0, pw = 1;
-		std::vector<uint64_t> start; // first index of each length
-		for (int l = 0; l <= pl.nl; l++) { start.push_back(ntexts); ntexts += pw; pw *= NLINES; }
-		if (vf::deadline_passed()) { vf::cap_hit("deadline before INI plan"); break; }
-		vf::parallel(ntexts * 4, [&](uint64_t it) {
-			if (vf::deadline_passed()) { static bool said = false; if (!said) { said = true; vf::cap_hit("deadline inside INI enumeration"); } return; }
-			uint64_t ti = it / 4; int var = (int)(it % 4);
-			int len = 0; while (len + 1 < (int)start.size() && start[len + 1] <= ti) len++;
-			uint64_t x = ti - start[len];
-			IniCase c; c.crlf = (var & 1) != 0; c.finalnl = (var & 2) == 0;
-			if (len == 0 && !c.finalnl) return;               // "" once: with 0 lines the final-newline variants coincide
-			if (len <= 1 && c.crlf && !c.finalnl) return;      // a single unterminated line has no line ending to vary
-			for (int j = 0; j < len; j++) { c.lines.push_back((int)(x % NLINES)); x /= NLINES; }
-			ini_histories(c, pl.k, pl.allw);
-		}, 8);
-	}
+#ifdef C18_DEEP
+	// the large products, built without sanitizer (value and order oracles only; the ASan part covers the smaller spaces)
+	(void)T;
+	{ Plan p = { 0, 5, 2, false }; ini_plan(p); }   // texts <= 5 lines x histories <= 2
+	{ Plan p = { 0, 4, 3, false }; ini_plan(p); }   // texts <= 4 lines x histories <= 3
+	{ Plan p = { 0, 3, 3, true }; ini_plan(p); }    // texts <= 3 lines x histories <= 3 x write() after every prefix
+	csv_shape(3, 2);
+	csv_shape(2, 3);
+	vf::sample("ini:L:0:3:01234:951 = 5-line text \"[a]\\n[b]\\nx=1\\ny=2\\n  z=3\" (no final newline), set(\"x\",\"w w\"); set(\"b/y\",\"w w\"); set(\"a/x\",\"w w\"); write(); ~IniFile()");
+	vf::sample("ini:C:1:1:570:382 (write() after every prefix): text \"# c\\r\\n\\r\\n[a]\\r\\n\", set(\"a/n\",\"w w\"); write(); set(\"x\",\"v\"); set(\"a/n\",\"v\"); ~IniFile()");
+	vf::sample("csv:A:3x2:<every one of 13^6 tables> written as arrays and cell by cell, read back with data()");
+	return vf::finish();
+#else
+	// ---------------- INI (a): quick and thorough: texts <= 4 lines x histories <= 2; thorough adds the 5-line texts with histories <= 1
+	{ Plan p = { 0, 4, 2, false }; ini_plan(p); }
+	if (T) { Plan p = { 5, 5, 1, false }; ini_plan(p); }
 	// ---------------- INI (b): histories of 20 sets with a write() after 0..20 of them, on all texts of <= 3 lines
 	{
 		uint64_t ntexts = 1 + 8 + 64 + 512;
+		double t0 = vf::now_s();
 		vf::parallel(ntexts * 4, [&](uint64_t it) {
 			uint64_t ti = it / 4; int var = (int)(it % 4);
 			int len = ti < 1 ? 0 : ti < 9 ? 1 : ti < 73 ? 2 : 3;
@@ -425,30 +468,11 @@ int main(int argc, char** argv) {
 					for (int w = 0; w < (T ? 6 : 3); w++) { c.wpos = T ? wpT[w] : wpQ[w]; run_ini(c); }
 				}
 		}, 4);
+		vf::setinfo("wall_s.ini_20set_macros", fmt("%.1f", vf::now_s() - t0));
 	}
-
-	// ---------------- CSV (a): every table over the 13-cell alphabet
-	//   quick: shapes 1x1 1x2 2x1 2x2 3x1 1x3; thorough: additionally 3x2 and 2x3
-	struct Shape { int r, c; };
-	std::vector<Shape> shapes;
-	{ Shape s[] = { { 1, 1 }, { 1, 2 }, { 2, 1 }, { 2, 2 }, { 3, 1 }, { 1, 3 } }; for (int i = 0; i < 6; i++) shapes.push_back(s[i]); }
-	if (T) { Shape s[] = { { 3, 2 }, { 2, 3 } }; for (int i = 0; i < 2; i++) shapes.push_back(s[i]); }
-	for (size_t si = 0; si < shapes.size(); si++) {
-		int R = shapes[si].r, C = shapes[si].c, n = R * C;
-		uint64_t total = 1; for (int i = 0; i < n; i++) total *= NCELLS;
-		const uint64_t CH = 169;
-		if (vf::deadline_passed()) { vf::cap_hit("deadline before CSV shape"); break; }
-		vf::parallel((total + CH - 1) / CH, [&](uint64_t blk) {
-			if (vf::deadline_passed()) { static bool said = false; if (!said) { said = true; vf::cap_hit("deadline inside CSV enumeration"); } return; }
-			for (uint64_t i = blk * CH; i < (blk + 1) * CH && i < total; i++) {
-				std::string cells; uint64_t x = i;
-				for (int j = 0; j < n; j++) { cells += char('a' + x % NCELLS); x /= NCELLS; }
-				run_csv('C', R, C, cells);
-				run_csv('A', R, C, cells);
-			}
-		}, 4);
-	}
-	// ---------------- CSV (b): shape macros: every shape up to 30x8, 13 diagonal fills + 13 uniform fills
+	// ---------------- CSV (a): every table over the 13-cell alphabet of the shapes 1x1 1x2 2x1 2x2 3x1 1x3 (3x2 and 2x3: part c18_deep)
+	csv_shape(1, 1); csv_shape(1, 2); csv_shape(2, 1); csv_shape(2, 2); csv_shape(3, 1); csv_shape(1, 3);
+	// ---------------- CSV (b): shape macros: every shape up to 30x8, 13 diagonal fills + 13 mostly-uniform fills
 	vf::parallel(30 * 8, [&](uint64_t i) {
 		int R = (int)(i / 8) + 1, C = (int)(i % 8) + 1;
 		for (int p = 0; p < 2 * NCELLS; p++) {
@@ -460,9 +484,10 @@ int main(int argc, char** argv) {
 	});
 
 	vf::sample("ini:L:0:-1:0235:- = text \"[a]\\nx=1\\ny=2\\n# c\" (no final newline), no set(), destructor; fresh IniFile must return a/x=1, a/y=2; raw order [entry a/x, entry a/y, comment '# c']");
-	vf::sample("ini:C:1:2:21046:38 = text \"x=1\\r\\n[b]\\r\\n[a]\\r\\n  z=3\\r\\n; c\\r\\n\", set(\"a/n\",\"w w\"); set(\"x\",\"v\"); write(); ~IniFile(): fresh must return x=v (top level), a/n=w w, a/z=3");
+	vf::sample("ini:C:1:2:2104:38 = text \"x=1\\r\\n[b]\\r\\n[a]\\r\\n  z=3\\r\\n\", set(\"a/n\",\"w w\"); set(\"x\",\"v\"); write(); ~IniFile(): fresh must return x=v (top level), a/n=w w, a/z=3");
 	vf::sample("ini 20-set histories: set(a/x,v) set(a/x,w w) set(a/n,v) ... cycling over {a/x,a/n,b/y,c/k,x} x {v,'w w'} with write() after 0/1/10/19/20 sets, on all texts of <= 3 lines");
 	vf::sample("csv:C:2x2:gmdk = rows [\",\", \"\\\"q\\\"\"], [123456789012345, \" \"] written cell by cell, read back with data()");
 	vf::sample("csv:A:30x8:<diagonal fill> = 30 rows x 8 columns over {1,-2.5,1e-7,123456789012345,\"\",a,\",\",\";\",\"\\\"\",\"'\",\" \",\"a,b\",\"\\\"q\\\"\"} written as arrays, read with nextRow()/[i]/[name]");
 	return vf::finish();
+#endif
 }
